@@ -27,6 +27,9 @@ pub struct Case {
 	pub len: u64,
 	pub fault_free: bool,
 	pub late_points: u32,
+	/// 0 = regime feed, 1 = one long one-sided trend with a ripple (counters of consecutive bars / new extremes)
+	#[serde(default)]
+	pub shape: u8,
 }
 
 pub struct C07;
@@ -54,6 +57,14 @@ pub fn regen(case: &Case) -> Vec<In> {
 	cfg.seg = cfg.seg.max(50) * 20; // long regimes: the faults lie far in the past of late positions
 	let mut fc = FaultCount::new();
 	let name = case.sut.as_str();
+	if case.shape == 1 {
+		let cs = feed::trend_ripple(&mut r.sub("values"), len);
+		return match (case.cfg.is_some(), sut::method(name.trim_end_matches('0')).map(|i| i.input)) {
+			(true, _) | (_, Some(InKind::Candle)) => feed::to_in_candles(&cs),
+			(_, Some(InKind::Pair)) => cs.iter().map(|c| In::p(c[3], c[4])).collect(),
+			_ => cs.iter().map(|c| In::v(c[3])).collect(),
+		};
+	}
 	if case.cfg.is_some() {
 		cfg.scale_exp = cfg.scale_exp.clamp(-3, 3);
 		return feed::to_in_candles(&feed::candles(&mut r.sub("values"), len, &cfg, &mut fc));
@@ -211,6 +222,7 @@ impl Check for C07 {
 			(Tier::Thorough, _) => 200_000 + r.below(800_000),
 		};
 		let len = if is_ind { len / 10 * if tier == Tier::Thorough { 1 } else { 2 } } else { len };
+		let len = if k == 1 { len.clamp(70_000, 400_000) } else { len };
 		let (params, cfg) = if is_ind {
 			let info = ieng::indicator(name).unwrap();
 			let def = (info.default_cfg)();
@@ -257,6 +269,8 @@ impl Check for C07 {
 			len,
 			fault_free: k % 3 == 2,
 			late_points: if tier == Tier::Quick { 60 } else { 300 },
+			// the second run of every SUT is the long one-sided trend (at least 70 000 bars: beyond a 16-bit counter)
+			shape: u8::from(k == 1),
 		}
 	}
 	fn execute(&self, case: &Case, stats: &mut Stats) -> Vec<Violation> {
